@@ -246,8 +246,12 @@ func (c *Conn) Close() error {
 	defer func() {
 		c.handler.rmStream(c.stanzaWriter.sid)
 		c.readLock.Lock()
-		c.recvClosed = true
-		close(c.readReady)
+		// A close request of the peer handled at the same moment may have been
+		// here already.
+		if !c.recvClosed {
+			c.recvClosed = true
+			close(c.readReady)
+		}
 		c.readLock.Unlock()
 	}()
 
@@ -290,8 +294,12 @@ func (c *Conn) closeNoNotify(t xmlstream.Encoder) error {
 	// Whatever happens to the data below, reads end here.
 	defer func() {
 		c.readLock.Lock()
-		c.recvClosed = true
-		close(c.readReady)
+		// A Close call of the application running at the same moment may have
+		// been here already.
+		if !c.recvClosed {
+			c.recvClosed = true
+			close(c.readReady)
+		}
 		c.readLock.Unlock()
 	}()
 
